@@ -193,13 +193,13 @@ impl Property for C14 {
         C14 { bases }
     }
     fn rule(&self) -> String {
-        format!("fault enumeration: for each of {} small pool packages (unsigned, signed, with files, hand-encoded, rpmbuild-made), Package::write and PackageMetadata::write into scripted sinks - EVERY failure offset 0..len crossed with 16 chunking families (1 byte, fixed 2/3/5/16/17/4096, seeded random 1..64 sequences, with and without interleaved Interrupted errors; six of them sinks with their own gathering write_vectored accepting 1/17/100/300/1000/random bytes per call), plus the no-failure run of each family; Package::parse from scripted sources (same families x BufReader capacities 1/7/64/8192) and from EVERY truncation offset. Non-trivial = a sink script with a short accept or a fault before the end / a source with short reads / a truncation; distinct by construction.", self.bases.len())
+        format!("fault enumeration: for each of {} small pool packages (unsigned, signed, with files, hand-encoded, rpmbuild-made), Package::write and PackageMetadata::write into scripted sinks - EVERY failure offset 0..len crossed with 16 chunking families (1 byte, fixed 2/3/5/16/17/4096, seeded random 1..64 sequences, with and without interleaved Interrupted errors; six of them sinks with their own gathering write_vectored accepting 1/17/100/300/1000/random bytes per call), plus the no-failure run of each family; Package::parse from scripted sources (same families x BufReader capacities 1/7/64/8192) and from EVERY truncation offset; plus three synthetic packages whose signature or main header exceeds 1 MiB (all read families, sampled write failure offsets and truncations). Non-trivial = a sink script with a short accept or a fault before the end / a source with short reads / a truncation; distinct by construction.", self.bases.len())
     }
     fn assumptions(&self) -> Vec<String> {
         vec!["canonical bytes = write into a Vec; the sinks obey the Write contract (accept >= 1 byte of a non-empty buffer unless they fail)".into()]
     }
     fn required_labels(&self, _t: Tier) -> Vec<&'static str> {
-        vec!["vectored-sink", "write-ok-short-accepts", "write-failed-at-offset", "read-chunked", "truncated-before-payload", "interrupted"]
+        vec!["header-over-1MiB", "vectored-sink", "write-ok-short-accepts", "write-failed-at-offset", "read-chunked", "truncated-before-payload", "interrupted"]
     }
     fn phases(&self, _tier: Tier) -> Vec<Phase<C14Case>> {
         let bases = Arc::new(self.bases.clone());
@@ -253,6 +253,40 @@ impl Property for C14 {
                     Some(C14Case::Read { base, chunk: FAMILIES[fam].0.clone(), interrupt_every: FAMILIES[fam].1, bufcap })
                 }),
             },
+            // packages whose header sections exceed 1 MiB: every read family x buffer capacity,
+            // the no-failure run and 64 spread failure offsets of every write family, and
+            // truncations at 4 KiB-spaced offsets plus the offsets around every 1 MiB multiple
+            Phase::Enumerate {
+                name: "big-headers",
+                total: N_BIG as u64 * (10 * 4 + FAMILIES.len() as u64 * 65 + 400),
+                exhaustive: false,
+                gen: Arc::new(move |i| {
+                    let per = 10 * 4 + FAMILIES.len() as u64 * 65 + 400;
+                    let base = BIG_BASE + (i / per) as u16;
+                    if base >= BIG_BASE + N_BIG {
+                        return None;
+                    }
+                    let j = i % per;
+                    let len = base_bytes(base).len() as u64;
+                    if j < 40 {
+                        let fam = (j % 10) as usize;
+                        let bufcap = [1u16, 7, 64, 8192][(j / 10) as usize % 4];
+                        return Some(C14Case::Read { base, chunk: FAMILIES[fam].0.clone(), interrupt_every: FAMILIES[fam].1, bufcap });
+                    }
+                    let j = j - 40;
+                    if j < FAMILIES.len() as u64 * 65 {
+                        let fam = (j % FAMILIES.len() as u64) as usize;
+                        let f = j / FAMILIES.len() as u64;
+                        // f = 0: no failure; 1..=64: failure offsets spread over the file, odd ones just past a MiB multiple
+                        let fail_at = if f == 0 { None } else if f % 2 == 1 { Some((((f / 2) % (len >> 20).max(1) + 1) << 20) as u32 + (f as u32 % 5)) } else { Some((len * f / 65) as u32) };
+                        // 1-byte chunk families are too slow for megabytes with interrupts; still included (bounded by file size)
+                        return Some(C14Case::Write { base, metadata_only: f % 3 == 2, chunk: FAMILIES[fam].0.clone(), interrupt_every: FAMILIES[fam].1, fail_at, vectored: FAMILIES[fam].2 });
+                    }
+                    let j = j - FAMILIES.len() as u64 * 65;
+                    let at = if j < 380 { j * len / 380 } else { let k = j - 380; ((k / 5 + 1) << 20) + (k % 5) - 2 };
+                    Some(C14Case::Truncated { base, at: at.min(len) as u32 })
+                }),
+            },
             Phase::Enumerate {
                 name: "every-truncation",
                 total: truncs.len() as u64,
@@ -271,11 +305,66 @@ impl Property for C14 {
     }
 }
 
+/// bases >= BIG_BASE are synthetic hand-encoded packages with a header section far larger than
+/// any internal buffer: 0 = 1.25 MiB description in the main header, 1 = 1.1 MiB private blob in
+/// the signature header, 2 = 3 MiB changelog array
+const BIG_BASE: u16 = 60_000;
+const N_BIG: u16 = 3;
+
+fn base_bytes(base: u16) -> std::sync::Arc<Vec<u8>> {
+    use std::sync::{Arc, OnceLock};
+    if base < BIG_BASE {
+        let p = pool();
+        return Arc::new(p[base as usize % p.len()].bytes.clone());
+    }
+    static BIG: OnceLock<Vec<Arc<Vec<u8>>>> = OnceLock::new();
+    let all = BIG.get_or_init(|| {
+        use crate::refimpl::fmt::Val;
+        use crate::refimpl::tags;
+        let text = |n: usize, salt: u8| -> String { (0..n).map(|i| (b'a' + ((i as u64 * 2654435761 >> 7) as u8 ^ salt) % 26) as char).collect() };
+        (0..N_BIG)
+            .map(|k| {
+                let mut main = crate::gen::filepkg::basic_entries("big");
+                let mut sig_extra: Vec<(u32, Val)> = vec![];
+                match k {
+                    0 => {
+                        main.retain(|e| e.0 != tags::DESCRIPTION);
+                        main.push((tags::DESCRIPTION, Val::I18n(vec![crate::refimpl::fmt::HexBytes(text(1_310_720, 1).into_bytes())])));
+                    }
+                    1 => sig_extra.push((999_999, Val::Bin(text(1_153_434, 2).into_bytes()))),
+                    _ => {
+                        let n = 3000;
+                        main.push((tags::CHANGELOGTIME, Val::Int32((0..n).map(|i| 1_000_000_000 + i).collect())));
+                        main.push((tags::CHANGELOGNAME, Val::StrArray((0..n).map(|i| crate::refimpl::fmt::HexBytes(format!("author {i}").into_bytes())).collect())));
+                        main.push((tags::CHANGELOGTEXT, Val::StrArray((0..n).map(|i| crate::refimpl::fmt::HexBytes(text(1000 + (i as usize % 7), i as u8).into_bytes())).collect())));
+                    }
+                }
+                let mut raw = crate::gen::filepkg::wrap(main, b"07070100000000".to_vec(), true);
+                if !sig_extra.is_empty() {
+                    // re-lay the signature header with the extra entry
+                    let bytes = raw.encode();
+                    let seg = fmt::decode(&bytes).expect("own package decodes");
+                    let mut entries: Vec<(u32, Val)> = seg.sig.entries.iter().filter(|e| e.tag >= 100).filter_map(|e| fmt::decode_entry(seg.sig.store(&bytes), e).map(|v| (e.tag, v))).collect();
+                    entries.extend(sig_extra);
+                    entries.sort_by_key(|e| e.0);
+                    raw.sig = fmt::layout(&entries, Some(fmt::TAG_HEADERSIGNATURES));
+                    raw.sig_pad = vec![0u8; fmt::sig_padding(raw.sig.dl)];
+                }
+                Arc::new(raw.encode())
+            })
+            .collect()
+    });
+    all[(base - BIG_BASE) as usize % all.len()].clone()
+}
+
 fn inner(case: &C14Case, o: &mut Outcome) -> Result<(), (String, String)> {
-    let p = pool();
     match case {
         C14Case::Write { base, metadata_only, chunk, interrupt_every, fail_at, vectored } => {
-            let bytes = &p[*base as usize % p.len()].bytes;
+            let bytes_arc = base_bytes(*base);
+            let bytes: &Vec<u8> = &bytes_arc;
+            if *base >= BIG_BASE {
+                o.label("header-over-1MiB");
+            }
             let pkg = rpm::Package::parse(&mut &bytes[..]).map_err(|e| ("harness-pool".to_string(), e.to_string()))?;
             let mut canonical = Vec::new();
             if *metadata_only {
@@ -318,7 +407,11 @@ fn inner(case: &C14Case, o: &mut Outcome) -> Result<(), (String, String)> {
             if *interrupt_every > 0 {
                 o.label("interrupted");
             }
-            let bytes = &p[*base as usize % p.len()].bytes;
+            let bytes_arc = base_bytes(*base);
+            let bytes: &Vec<u8> = &bytes_arc;
+            if *base >= BIG_BASE {
+                o.label("header-over-1MiB");
+            }
             let want = rpm::Package::parse(&mut &bytes[..]).map_err(|e| ("harness-pool".to_string(), e.to_string()))?;
             let src = Source { data: bytes, pos: 0, chunk: chunk.clone(), state: if let Chunk::Seeded(s) = chunk { *s } else { 0 }, calls: 0, interrupt_every: *interrupt_every };
             let mut br = io::BufReader::with_capacity(*bufcap as usize, src);
@@ -341,7 +434,11 @@ fn inner(case: &C14Case, o: &mut Outcome) -> Result<(), (String, String)> {
             }
         }
         C14Case::Truncated { base, at } => {
-            let bytes = &p[*base as usize % p.len()].bytes;
+            let bytes_arc = base_bytes(*base);
+            let bytes: &Vec<u8> = &bytes_arc;
+            if *base >= BIG_BASE {
+                o.label("header-over-1MiB");
+            }
             let payload_start = fmt::decode(bytes).map(|s| s.payload_start).map_err(|e| ("harness-pool".to_string(), e))?;
             let cut = &bytes[..(*at as usize).min(bytes.len())];
             let r = panics::catch(|| rpm::Package::parse(&mut &cut[..]));
